@@ -536,7 +536,7 @@ pub fn run(lts: &HLts, o: &HOpts) -> Value {
                         ("start", 4, -1), ("cur", 0, 1), ("cur", 0, 0), ("cur", 0, -1), ("start", 2, 0), ("cur", 2, -1), ("cur", -2, 0), ("end", 2, -1),
                         ("end", -2, 0), ("start", 2, -1), ("cur", 0, 2), ("end", 0, -1000), ("start", 0, 5), ("cur", 0, -7), ("end", 0, 3), ("start", 1, 0),
                     ];
-                    for _ in 0..rng.gen_range(2..7) {
+                    for _ in 0..rng.gen_range(4..11) {
                         let (w, hi, lo) = CAT[rng.gen_range(0..CAT.len())];
                         let lo = lo * o.b as i64;
                         let bo = json!({"op":"bseek","c":[],"wh":"","off":0,"n":0,"w":w,"hi":hi,"lo":lo,"b":o.b});
